@@ -1084,22 +1084,13 @@ theorem C02_dequeue (E : Rec → Msg → Bool) (c : Cfg) (now : Int) (q q' : Q) 
   next q1 hhk =>
     split at hstep
     · cases hstep
-      by_cases hmem : c.memory = true
-      · rw [if_pos hmem] at hhk
-        obtain ⟨f, hf, hsw⟩ := sweep_spec c now q
-        obtain ⟨keep, hkeep, hwhy⟩ := prune_spec02 hhk
-        rw [hsw] at hkeep hwhy
-        apply C02_dequeueCore E c now q _ route target batch ttl (effTTL ttl) ch.picks f id keep q1.msgs hnd hf
-          (SwLike_id now) (Or.inr fun _ => rfl) hkeep hwhy
-        simp
-      · rw [if_neg hmem] at hhk
-        obtain ⟨q0, hq0, hq1⟩ := Option.map_eq_some_iff.1 hhk
-        obtain ⟨f, hf, hsw⟩ := sweep_spec c now q0
-        obtain ⟨keep, hkeep, hwhy⟩ := prune_spec02 hq0
-        subst hq1
-        apply C02_dequeueCore E c now q _ route target batch ttl (effTTL ttl) ch.picks id f keep q0.msgs hnd
-          (SwLike_id now) hf (Or.inl fun _ => rfl) (by simpa using hkeep) (by simpa using hwhy)
-        simp [hsw]
+      obtain ⟨q0, hq0, hq1⟩ := Option.map_eq_some_iff.1 hhk
+      obtain ⟨f, hf, hsw⟩ := sweep_spec c now q0
+      obtain ⟨keep, hkeep, hwhy⟩ := prune_spec02 hq0
+      subst hq1
+      apply C02_dequeueCore E c now q _ route target batch ttl (effTTL ttl) ch.picks id f keep q0.msgs hnd
+        (SwLike_id now) hf (Or.inl fun _ => rfl) (by simpa using hkeep) (by simpa using hwhy)
+      simp [hsw]
     · cases hstep
 
 /-! ### enqueue -/
